@@ -584,40 +584,47 @@ func evalImportStmt(vm *r.VM, node *syntax.ImportStmt) error {
 func evalWhileLoopStmt(vm *r.VM, node *syntax.WhileLoopStmt) error {
 	// set context's current scope with new one
 
-	for {
-		verifTick()
+	// one pass: test the condition, run the body. Every pass has a scope of its own: a name
+	// the condition binds (（F：N）得到R) belongs to that pass - the next test binds it anew
+	pass := func() (done bool, err error) {
+		scope := vm.BeginScope()
+		defer scope.EndScope()
 		// the condition belongs to the line of the loop statement (after the first pass
 		// the current line is still the one of the last statement of the loop body)
 		vm.SetCurrentLine(node.GetCurrentLine())
 		// #1. first execute expr
 		trueExpr, err := evalExpression(vm, node.TrueExpr)
 		if err != nil {
-			return err
+			return true, err
 		}
 		// #2. assert trueExpr to be Bool
 		vTrueExpr, ok := trueExpr.(*value.Bool)
 		if !ok {
-			return zerr.InvalidExprType("bool")
+			return true, zerr.InvalidExprType("bool")
 		}
 		// break the loop if expr yields not true
 		if !vTrueExpr.GetValue() {
-			return nil
+			return true, nil
 		}
 		// #3. stmt block
 		if _, err := evalPureStmtBlock(vm, node.LoopBlock); err != nil {
 			if s, ok := err.(*zerr.Signal); ok {
 				if s.SigType == zerr.SigTypeContinue {
-					continue
+					return false, nil
 				}
 				if s.SigType == zerr.SigTypeBreak {
-					return nil
+					return true, nil
 				}
 			}
-			return err
+			return true, err
 		}
 		// 输出 inside the loop body ends the loop as well
-		if vm.GetReturnValue() != nil {
-			return nil
+		return vm.GetReturnValue() != nil, nil
+	}
+	for {
+		verifTick()
+		if done, err := pass(); done || err != nil {
+			return err
 		}
 	}
 }
